@@ -9,6 +9,7 @@ import (
 	"github.com/hashicorp/hcl/v2/ext/dynblock"
 	"github.com/hashicorp/hcl/v2/hclsyntax"
 	hcljson "github.com/hashicorp/hcl/v2/json"
+	"github.com/zclconf/go-cty/cty"
 
 	"verifharness/core"
 	"verifharness/gen"
@@ -323,6 +324,22 @@ func c04Case(c *core.Case) {
 				name += "(1 dynamic block)"
 			}
 			impls = append(impls, c04Impl{name, dynblock.Expand(df.Body, &hcl.EvalContext{}), items})
+		}
+	}
+	// dynblock with an unknown for_each: the generated placeholder block's body
+	// presents the content template (with unknown attribute values)
+	{
+		wsrc := "dynamic \"zz_wrap\" {\n  for_each = unk\n  content {\n" + nativeSrc + "\n  }\n}\n"
+		wf, wd := hclsyntax.ParseConfig([]byte(wsrc), "w.hcl", hcl.InitialPos)
+		if !wd.HasErrors() {
+			ex := dynblock.Expand(wf.Body, &hcl.EvalContext{Variables: map[string]cty.Value{"unk": cty.UnknownVal(cty.List(cty.String))}})
+			wc, wcd := ex.Content(&hcl.BodySchema{Blocks: []hcl.BlockHeaderSchema{{Type: "zz_wrap"}}})
+			if !wcd.HasErrors() && len(wc.Blocks) == 1 {
+				impls = append(impls, c04Impl{"dynblock-unknown-for_each", wc.Blocks[0].Body, items})
+			} else {
+				c.Violation("unknown-for_each-placeholder-missing", fmt.Sprintf("a dynamic block with an unknown for_each expands to %d blocks (%s)", len(wc.Blocks), diagStr(wcd)), nil)
+				return
+			}
 		}
 	}
 	c.SetInput(fmt.Sprintf("LOGICAL (native):\n%s\nUNION SCHEMA: %s\nSPLIT: %d parts", nativeSrc, schemaStr(union), k))
